@@ -251,7 +251,12 @@ impl Machine {
                 u => Some(ChunkSpec::UserData(Machine::ud_for(pos, *u))),
             };
             if let Some(c) = chunk {
-                frames[f].chunks.push(c.into());
+                let mut item: ChunkItem = c.into();
+                if s.is_ud() {
+                    // undefined bits of the flags word (the format defines 1 text, 2 colour, 4 properties)
+                    item.flag_junk = [0u32, 0x8, 0, 0x100, 0xffff_fff8, 0, 0x8000_0000][pos % 7];
+                }
+                frames[f].chunks.push(item);
             }
         }
         FileSpec { header, frames, trailer: vec![], fmt: Fmt::Rgba }
